@@ -1,5 +1,5 @@
 /- C01 — property theorems (in progress). -/
-import Proofs.Lemmas.AoefDecode
+import Proofs.Lemmas.AoefLoad
 namespace SE.Proofs.C01
 
 end SE.Proofs.C01
